@@ -29,6 +29,11 @@ FEATURES = {"ohkami": "rt_tokio,sse", "ohkami_lib": "stream"}
 ENV = dict(os.environ, CARGO_NET_OFFLINE="true", CARGO_TERM_COLOR="never")
 
 
+def _side_run():
+    """a run on a patched copy (VERIF_REPO) or a development run (VERIF_DEV, --only): logs / evidence / replays go to logs/_mutated_<id>, never over the real ones"""
+    return "VERIF_REPO" in os.environ or "VERIF_DEV" in os.environ
+
+
 class Undecided(Exception):
     pass
 
@@ -487,7 +492,8 @@ def main(argv):
     if getattr(prop, "JOBS", None) and "VERIF_JOBS" not in os.environ:
         a.jobs = min(a.jobs, prop.JOBS)
     scratch = make_scratch(pid)
-    logdir = os.path.join(VERIF, "logs", pid)
+    # a run on a patched copy (VERIF_REPO set, e.g. lib/seedrun.sh) must not overwrite the logs / evidence of the real tree
+    logdir = os.path.join(VERIF, "logs", pid if not _side_run() else "_mutated_" + pid)
     shutil.rmtree(logdir, ignore_errors=True)
     os.makedirs(logdir, exist_ok=True)
     rc = 2
@@ -495,6 +501,11 @@ def main(argv):
         rc = run(pid, prop, a, harnesses, scratch, logdir, seed, t0)
     except Undecided as e:
         print(f"UNDECIDED property={pid}: {e}")
+        rc = 2
+    except Exception as e:      # a tool / driver error is never an alarm
+        import traceback
+        traceback.print_exc()
+        print(f"UNDECIDED property={pid}: internal error of the driver: {e!r}")
         rc = 2
     finally:
         if not a.keep:
@@ -596,7 +607,9 @@ def run(pid, prop, a, harnesses, scratch, logdir, seed, t0):
 def write_replay(pid, prop, h, det, res, scratch, do_native=True, borrowed=None):
     first = det[0] if isinstance(det, list) and det else {"id": "obligation", "description": str(det), "location": ""}
     name = re.sub(r"[^A-Za-z0-9_.-]", "_", f"{pid}-{h.name}-{first['id']}")[:150]
-    path = os.path.join(VERIF, "replay", name + ".json")
+    rdir = os.path.join(VERIF, "replay") if not _side_run() else os.path.join(VERIF, "logs", "_mutated_" + pid, "replay")
+    os.makedirs(rdir, exist_ok=True)
+    path = os.path.join(rdir, name + ".json")
     native = None
     if borrowed is not None:
         native = dict(borrowed_from=borrowed["path"], fails_natively=borrowed["confirmed"],
@@ -604,7 +617,7 @@ def write_replay(pid, prop, h, det, res, scratch, do_native=True, borrowed=None)
     if res is not None and do_native:
         try:
             if not res.get("playback"):
-                again = run_single_with_playback(scratch, h, os.path.join(VERIF, "logs", pid))
+                again = run_single_with_playback(scratch, h, os.path.join(VERIF, "logs", pid if not _side_run() else "_mutated_" + pid))
                 res["playback"] = again.get("playback")
             native = native_replay(scratch, h, res, prop, pid)
         except Exception as e:  # replay is best effort; the violation is reported regardless
@@ -716,8 +729,9 @@ def write_evidence(pid, prop, tier, seed, harnesses, results, extra, scan, cg, n
               assumptions=list(getattr(prop, "ASSUMPTIONS", [])) + ["scan of injected text: " + s for s in scan] +
                           [f"mechanical extraction: {e['lines']} lines of {e['file']} between `{e['from_marker']}` and `{e['to_marker']}` (sha256 {e['sha256'][:16]}) wrapped verbatim into a harness function" for e in EXTRACTED],
               wall_s=round(wall, 1), violations=nviol)
-    os.makedirs(os.path.join(VERIF, "evidence"), exist_ok=True)
-    json.dump(ev, open(os.path.join(VERIF, "evidence", pid + ".json"), "w"), indent=1)
+    evdir = os.path.join(VERIF, "evidence") if not _side_run() else os.path.join(VERIF, "logs", "_mutated_" + pid)
+    os.makedirs(evdir, exist_ok=True)
+    json.dump(ev, open(os.path.join(evdir, pid + ".json"), "w"), indent=1)
 
 
 if __name__ == "__main__":
